@@ -267,6 +267,21 @@ func runRTPFB(c caseDesc, m *model, oc *[]string, r *caseResult) []finding {
 		'A': ic.BindLocalStream(&interceptor.StreamInfo{SSRC: ssrcA}, sink),
 		'B': ic.BindLocalStream(&interceptor.StreamInfo{SSRC: ssrcB}, sink),
 	}
+	// a second interceptor built by the same factory (another peer connection) sends packets with the very same
+	// SSRCs and numbers but other sizes, one millisecond before each packet of the first: nothing it sends may
+	// show up in what the first one reports
+	ic2, err := f.NewInterceptor("sibling")
+	if err != nil {
+		vsched.Failf("NewInterceptor: %v", err)
+		return out
+	}
+	sink2 := &nullWriter{}
+	siblings := map[byte]interceptor.RTPWriter{
+		'T': ic2.BindLocalStream(&interceptor.StreamInfo{SSRC: ssrcT, RTPHeaderExtensions: twccExt}, sink2),
+		'U': ic2.BindLocalStream(&interceptor.StreamInfo{SSRC: ssrcU, RTPHeaderExtensions: twccExt}, sink2),
+		'A': ic2.BindLocalStream(&interceptor.StreamInfo{SSRC: ssrcA}, sink2),
+		'B': ic2.BindLocalStream(&interceptor.StreamInfo{SSRC: ssrcB}, sink2),
+	}
 	var next []byte
 	reader := ic.BindRTCPReader(interceptor.RTCPReaderFunc(func(b []byte, a interceptor.Attributes) (int, interceptor.Attributes, error) {
 		return copy(b, next), a, nil
@@ -285,6 +300,10 @@ func runRTPFB(c caseDesc, m *model, oc *[]string, r *caseResult) []finding {
 				p := cnt.next(op, len(m.sent))
 				if p == nil {
 					continue
+				}
+				vsched.Advance(time.Millisecond)
+				if w2 := siblings[op.stream]; w2 != nil && len(payload) >= p.payload+13 {
+					_, _ = w2.Write(header(p), payload[:p.payload+13], nil)
 				}
 				vsched.Advance(time.Millisecond)
 				p.dep = vsched.Now()
